@@ -166,15 +166,14 @@ Definition anyp_case := (cfg * vctx * list (hash * (hash * view)) * list (qcdige
 Definition check_anyp (y : anyp_case) : bool :=
   let '(c, x, st, sdl, bq, ag, o) := y in
   let s := store_of st in
-  let sd := sd_of sdl in
   match (if c_aggqc c then ag else None) with
   | Some a =>
       match verify_aggqc_p c x s a with
       | Ok h => existsb (fun q => N.eqb (qc_view q) (qc_view h) && qc_valid_p c x s q &&
-                                  verdict_ok (verify_any_qc_p c x s sd bq ag (fun _ => Ok q)) o)
+                                  verdict_ok (verify_any_qc_p c x s bq ag (fun _ => Ok q)) o)
                         (aggqc_pool (map_of (aq_qcs a)))
-      | r => verdict_ok (verify_any_qc_p c x s sd bq ag (fun _ => r)) o
+      | r => verdict_ok (verify_any_qc_p c x s bq ag (fun _ => r)) o
       end
-  | None => verdict_ok (verify_any_qc_p c x s sd bq ag (fun r => r)) o
+  | None => verdict_ok (verify_any_qc_p c x s bq ag (fun r => r)) o
   end.
 Definition anyp_mismatches := mismatches_with check_anyp.
